@@ -45,6 +45,54 @@ def period_cases(max_size, rng=None, limit=None):
     return cases
 
 
+def periodat_cases(rng, n):
+    """RunDaily..RunYearly asked about timestamps ON and OFF the data index: the day before the data, days inside gaps of
+    the index (weekends, holidays), intraday stamps of index days, days after the last date"""
+    cases = []
+    for _ in range(n):
+        mode = rng.choice(["pool", "bday", "gappy"])
+        if mode == "pool":
+            sub = sorted(rng.sample(POOL, rng.randint(2, 5)))
+        else:
+            t = rng.choice(POOL) // D * D
+            sub = []
+            while len(sub) < rng.randint(4, 12):
+                wd = (t // D + 3) % 7
+                if not (mode == "bday" and wd >= 5) and not (mode == "gappy" and rng.random() < 0.4):
+                    sub.append(t)
+                t += D
+        dates = [sub[0] - D] + list(sub)
+        stamps = set(dates)
+        stamps.update([dates[0] - D, dates[0] - 40 * D, dates[-1] + D, dates[-1] + 3 * D, dates[-1] + 400 * D])
+        for a, b in zip(dates, dates[1:]):
+            if b - a > D:
+                stamps.add(a + D * rng.randint(1, (b - a) // D - 1) if (b - a) // D > 1 else a + D)
+                stamps.add(b - D)
+            stamps.add(a + rng.choice([3600, 43200, D - 1]))
+        stamps = sorted(stamps)
+        kind = rng.choice(KINDS)
+        flags = [rng.randint(0, 1) for _ in range(3)]
+        cases.append({"algo": ["runperiod", kind, flags[0], flags[1], flags[2]], "dates": dates, "stamps": stamps})
+    return cases
+
+
+def model_periodat(cases):
+    text = "\n".join(common.sx(["periodat", "p%d" % i, c["algo"], c["dates"], c["stamps"]]) for i, c in enumerate(cases))
+    out = common.run_model(text)
+    res = {}
+    for line in out.splitlines():
+        tok = line.split(" ")
+        if tok[0] == "PERIODAT":
+            res[int(tok[1][1:])] = tok[2:]
+    return [res.get(i) for i in range(len(cases))]
+
+
+def run_periodat(scratch, cases):
+    impl = json.loads(common.run_impl(scratch, "impl_sched.py", json.dumps({"periodat": cases})))["periodat"]
+    model = model_periodat(cases)
+    return list(zip(cases, impl, model))
+
+
 def counter_cases(rng, n):
     cases = []
     for _ in range(n):
